@@ -128,23 +128,27 @@ def plan(w):
     forbid = w["cfg"].get("forbid_creation_of", ())
     partial = w["mod"] in ("selection", "keep_columns", "time_range", "fuzzy", "allow_incomplete")
     run, load, seen = [], set(), set()
-    for d in w["save"]:
-        pass
     err = None
+    errs = set()
 
     def visit(d):
+        # a request can be invalid in several independent ways (a needed type may not be created AND a
+        # never-saved type is asked to be saved): which one is reported first is not part of the property,
+        # so the traversal goes on past a refusal (not below it) and every applicable error is acceptable
         nonlocal err
-        if d in seen or err:
+        if d in seen:
             return
         seen.add(d)
         if d in readable:
             load.add(d)
             return
         if w["mod"] == "time_range" and RANK[policy(nb, d)] > RANK["EXPLICIT"]:
-            err = "DataNotAvailable"
+            err = err or "DataNotAvailable"
+            errs.add("DataNotAvailable")
             return
         if "*" in forbid or d in forbid:
-            err = "DataNotAvailable"
+            err = err or "DataNotAvailable"
+            errs.add("DataNotAvailable")
             return
         n = nb[d]
         if n not in run:
@@ -153,12 +157,12 @@ def plan(w):
             visit(dep)
     visit(target)
     saved = {0: set(), 1: set()}
-    if err is None:
-        for n in run:
-            for d in P.names_of(n):
-                pol = policy(nb, d)
-                if pol == "NEVER" and d in w["save"] and d not in readable:
-                    err = "ValueError"      # asking to save a never-saved type that would be computed
+    for n in run:
+        for d in P.names_of(n):
+            pol = policy(nb, d)
+            if pol == "NEVER" and d in w["save"] and d not in readable:
+                err = err or "ValueError"      # asking to save a never-saved type that would be computed
+                errs.add("ValueError")
         # NEVER + save= is only noticed for types whose plugin is visited
     if err is None and not partial:
         for n in run:
@@ -172,7 +176,7 @@ def plan(w):
                         if not fe["readonly"] and takes(fe, d):
                             saved[i].add(d)
     return {"run": {P.names_of(n)[0] for n in run}, "load": load, "saved": saved, "error": err,
-            "readable": readable}
+            "errors": errs, "readable": readable}
 
 
 def final_dirs(fs, root, run_id):
@@ -259,8 +263,8 @@ def execute(w, seed, strategy="random", forced=None, strict=False):
                 if res["outcome"] != "raised":
                     vio = Violation("NO_ERROR", f"request that must fail ({exp['error']}) returned normally",
                                     f"forbid={w['cfg'].get('forbid_creation_of')} mod={w['mod']} save={w['save']}")
-                elif type(res["exc"]).__name__ != exp["error"]:
-                    vio = Violation("WRONG_ERROR", f"expected {exp['error']}, got {sig_of_exception(res['exc'])}",
+                elif type(res["exc"]).__name__ not in exp["errors"]:
+                    vio = Violation("WRONG_ERROR", f"expected {'/'.join(sorted(exp['errors']))}, got {sig_of_exception(res['exc'])}",
                                     repr(res["exc"])[:400])
                 elif ran:
                     vio = Violation("COMPUTED_ANYWAY", "plugins were run although the request had to be refused",
